@@ -130,9 +130,41 @@ func sym(s string) string {
 	if ok && len(s) > 0 && !(s[0] >= '0' && s[0] <= '9') {
 		return s
 	}
-	s = strings.ReplaceAll(s, "|", "!")
-	s = strings.ReplaceAll(s, "\\", "!")
-	return "|" + s + "|"
+	// no quoted symbols: testers such as (_ is |box_[]uint8|) are rejected by some solver versions
+	var sb strings.Builder
+	for _, c := range s {
+		switch {
+		case c >= 'a' && c <= 'z' || c >= 'A' && c <= 'Z' || c >= '0' && c <= '9' || c == '_' || c == '.' || c == '$' || c == '@' || c == '!':
+			sb.WriteRune(c)
+		case c == '[':
+			sb.WriteString("$L")
+		case c == ']':
+			sb.WriteString("$R")
+		case c == '*':
+			sb.WriteString("$P")
+		case c == ' ':
+			sb.WriteString("$_")
+		case c == '{':
+			sb.WriteString("$O")
+		case c == '}':
+			sb.WriteString("$C")
+		case c == '/':
+			sb.WriteString("$S")
+		case c == ',':
+			sb.WriteString("$c")
+		case c == '(':
+			sb.WriteString("$o")
+		case c == ')':
+			sb.WriteString("$r")
+		default:
+			fmt.Fprintf(&sb, "$x%x", c)
+		}
+	}
+	out := sb.String()
+	if out[0] >= '0' && out[0] <= '9' {
+		out = "$" + out
+	}
+	return out
 }
 
 // ---------------------------------------------------------------------------
